@@ -177,7 +177,7 @@ def one_fault(res, xmlschema, lxml_etree, schema, fam, version, damaged, dpath, 
             break
     else:
         res.count('faults:localised')
-    if res.evaluations % 150 == 0:
+    if len(res.samples) < 2:
         res.sample({'family': fam, 'fault': kind, 'damaged_path': list(dpath), 'detail': detail,
                     'errors': [[list(p), e.path] for p, e in zip(located, errs)][:3]})
 
